@@ -16,7 +16,7 @@ from .core import Relation, err_kind
 
 PROP = "C01"
 CLAIMED = True
-COQ_MODULES = ["C01_Check", "C01_Proofs"]
+COQ_MODULES = ["C01_Check", "C01_Proofs", "C01_Bsearch", "C01_Kernel"]
 PROPERTY_MODULE = "C01_Property"
 ALLOWED_AXIOMS = []
 RULE = (
